@@ -14,6 +14,26 @@ from vlib.term import z
 
 KINDS = {'p': 'KPub', 'x': 'KXPub', 's': 'KSub', 'c': 'KCtr', 'd': 'KDest'}
 
+HOOK_FIND_EXCL = 'fn find_exclusive_publication_for_verif'
+
+
+def has_find_excl_hook():
+    """ClientConductor::find_exclusive_publication is pub(crate); the harness reaches it through the add-only hook
+    of hooks/cond-find-exclusive.diff. While the repository under test lacks the hook, lookups / drops / peeks of
+    exclusive publications are not generated (harness/c09/build.rs makes the same test when the harness is built)."""
+    from vlib import core
+    try:
+        return HOOK_FIND_EXCL in open(os.path.join(core.REPO, 'src', 'client_conductor.rs')).read()
+    except OSError:
+        return False
+
+
+def hook_note():
+    ok = has_find_excl_hook()
+    return (True, 'hook find_exclusive_publication_for_verif',
+            'present: exclusive publications are looked up, peeked at and dropped like shared ones' if ok else
+            'ABSENT in the repository under test: fx / dx / px operations are not generated (exclusive publications only through add, answers, close)')
+
 
 def impl_line(case):
     cfg = case['cfg']
@@ -25,6 +45,9 @@ def impl_line(case):
 
 def event_expr(e):
     n, a = e[0], e[1:]
+    if n == 'er':
+        # the listener adapter's dispatch on the error code (4 = channel endpoint error) is part of the model: Conductor.ev_error
+        return '(ev_error %s %s)' % (z(a[0]), z(a[1]))
     name = {'pr': 'EvPubReady', 'xr': 'EvXPubReady', 'sr': 'EvSubReady', 'os': 'EvOpSuccess', 'er': 'EvError',
             'ai': 'EvAvailImage', 'ui': 'EvUnavailImage', 'cr': 'EvCounterReady', 'uc': 'EvUnavailCounter',
             'ct': 'EvClientTimeout'}[n]
@@ -34,7 +57,9 @@ def event_expr(e):
 def op_expr(o):
     n, a = o[0], o[1:]
     if n in ('ap', 'ax', 'as'):
-        return 'Add %s %s %s 0' % (KINDS[n[1]], z(a[0]), z(a[1]))
+        return 'Add %s %s %s %s' % (KINDS[n[1]], z(a[0]), z(a[1]), z(a[2]) if len(a) > 2 else '0')
+    if n in ('cp', 'cx'):
+        return 'CloseHandle %s %s' % (KINDS[n[1]], z(a[0]))
     if n == 'ac':
         return 'Add KCtr %s %s %s' % (z(a[0]), z(a[1]), z(a[2]))
     if n == 'ad':
@@ -66,18 +91,108 @@ def op_expr(o):
     raise ValueError(o)
 
 
+def scripted_callbacks(case):
+    """does the history install callbacks that call back into the client (op `cs`)?"""
+    return any(o[0] == 'cs' for o in case['ops'])
+
+
 def ops_expr(case):
-    return '[' + '; '.join(op_expr(o) for o in case['ops']) + ']'
+    # for the judges installing a callback script is an operation without effect on the conductor (ConductorReent.plain)
+    return '[' + '; '.join('Tick 0' if o[0] == 'cs' else op_expr(o) for o in case['ops']) + ']'
+
+
+def rops_expr(case):
+    return '[' + '; '.join('RScript %s' % z(o[1]) if o[0] == 'cs' else 'ROp (%s)' % op_expr(o) for o in case['ops']) + ']'
 
 
 def model_expr(case, mode):
     c = case['cfg']
+    if scripted_callbacks(case):
+        return 'rrun_obs %s %s %s %s %s' % (z(c[0]), z(c[1]), z(c[2]), z(c[3]), rops_expr(case))
     return 'run_obs %s %s %s %s %s' % (z(c[0]), z(c[1]), z(c[2]), z(c[3]), ops_expr(case))
 
 
+def reentrant_deadlock(case, obs):
+    """The class of the finding reentrant-call-deadlock: the history is answered up to an operation that hangs while a callback
+    script that calls the client is installed (the last `cs n` before it has n <> 0)."""
+    if isinstance(obs, int) or obs[0] != 'list' or not obs[1]:
+        return False
+    last = obs[1][-1]
+    if isinstance(last, int) or last[0] != 'tuple' or isinstance(last[1][0], int) or last[1][0] != ('app', 'Hang', []):
+        return False
+    i = len(obs[1]) - 1
+    if i >= len(case['ops']):
+        return False
+    script = 0
+    for o in case['ops'][:i]:
+        if o[0] == 'cs':
+            script = o[1]
+    return script != 0 and case['ops'][i][0] != 'cs'
+
+
+def reent_histories(rng, n):
+    """Histories whose callbacks call add / find / release: a plain history with a script installed somewhere (and sometimes
+    taken out again before anything fires)."""
+    out = []
+    for _ in range(n):
+        c = gen_history(rng, 'quick', rng.choice(['protocol', 'faults']))
+        ops = c['ops']
+        if len(ops) < 3:
+            continue
+        i = rng.randrange(1, len(ops))
+        ops = ops[:i] + [['cs', rng.choice([1, 2, 3])]] + ops[i:]
+        if rng.random() < 0.3:
+            j = rng.randrange(i + 1, len(ops) + 1)
+            ops = ops[:j] + [['cs', 0]] + ops[j:]
+        out.append({'kind': 'reentrant', 'cfg': c['cfg'], 'ops': ops[:72]})
+    return out
+
+
+def scripted_reent():
+    H = []
+
+    def h(label, ops, cfg=(0, 1000000, 10000, 5000)):
+        c = {'kind': label, 'cfg': list(cfg), 'ops': [o.split() for o in ops.split(';') if o.strip()]}
+        for o in c['ops']:
+            for j in range(1, len(o)):
+                try:
+                    o[j] = int(o[j])
+                except ValueError:
+                    pass
+        H.append(c)
+    # every kind of callback, each calling add / find / release
+    h('reentrant-on-new-subscription-adds', 'hb 1000000; as 4 9; cs 1; fs 1; w; we sr 1 6; fs 1')
+    h('reentrant-on-new-publication-finds', 'hb 1000000; ap 4 9; cs 2; we pr 1 1 9 5 3 4; fp 1')
+    h('reentrant-available-image-releases', 'hb 1000000; as 4 9; we sr 1 6; fs 1; cs 3; we ai 50 1 2 1')
+    h('reentrant-unavailable-image-adds', 'hb 1000000; as 4 9; we sr 1 6; fs 1; we ai 50 1 2 1; cs 1; we ui 50 1')
+    h('reentrant-counter-handlers', 'hb 1000000; cs 2; we uc 7 7; w')
+    h('reentrant-error-handler-on-stall', 'hb 1000000; ap 1 1; cs 1; tk 5001; hb 1005001; w; ap 1 1')
+    h('reentrant-close-handler', 'hb 1000000; ap 1 1; cs 3; cl; ap 1 1')
+    h('reentrant-drop-subscription-with-images', 'hb 1000000; as 4 9; we sr 1 6; fs 1; we ai 50 1 2 1; cs 2; ds 1; fs 1')
+    h('reentrant-drop-with-inactive-driver', 'hb 1000000; ap 1 1; we pr 1 1 1 5 3 4; fp 1; tk 10001; w; cs 1; dp 1')
+    h('reentrant-channel-endpoint-error', 'hb 1000000; as 4 9; we sr 1 6; cs 1; we er 6 4; fs 1')
+    # a script that is installed but never fires, or is taken out again in time: the plain history
+    h('script-never-fires', 'hb 1000000; cs 1; ap 1 1; as 2 2; fp 1; fs 2; tk 100; w; we os 9; we er 1 3; fp 1; fp 1; cs 0; we sr 2 6; fs 2; cl')
+    h('script-removed-in-time', 'hb 1000000; as 4 9; cs 3; w; cs 0; we sr 1 6; fs 1; cs 2; ps 1; pp 1; fs 1; cs 0; cl')
+    return H
+
+
+
+
+
+def _is_chan_err(c):
+    return (not isinstance(c, int) and c[0] == 'app' and c[1] == 'CbErr' and c[2] and not isinstance(c[2][0], int)
+            and c[2][0][0] == 'app' and c[2][0][1] == 'EChannelEndpoint')
+
+
 def normalize(obs):
-    """close_all_resources walks HashMaps: inside one operation a maximal run of consecutive unavailable-image
-    (unavailable-counter) callbacks is put in the order of the registration ids (stable), on both sides."""
+    """The conductor walks HashMaps: inside one operation
+    - a maximal run of consecutive unavailable-counter callbacks is put in the order of the registration ids (stable);
+    - a maximal run of unavailable-image callbacks and ChannelEndpointException error-handler calls (close_all_resources,
+      on_channel_endpoint_error_response: one call per resource on the channel, each followed by the images of that
+      subscription) is put in a canonical order: the error-handler calls first, then the image callbacks in the order of the
+      subscription ids (stable, so the images of one subscription keep their order);
+    on both sides."""
     if isinstance(obs, int) or obs[0] != 'list':
         return obs
     out = []
@@ -87,15 +202,26 @@ def normalize(obs):
             continue
         cbs = item[1][1][1]
         res, i = [], 0
+
+        def name_of(c):
+            return c[1] if (not isinstance(c, int) and c[0] == 'app') else None
+        key = lambda t: t[2][0] if t[2] and isinstance(t[2][0], int) else 0
         while i < len(cbs):
             c = cbs[i]
-            name = c[1] if (not isinstance(c, int) and c[0] == 'app') else None
-            if name in ('CbUnavailImg', 'CbUnavailCtr'):
+            name = name_of(c)
+            if name == 'CbUnavailCtr':
                 j = i
-                while j < len(cbs) and not isinstance(cbs[j], int) and cbs[j][0] == 'app' and cbs[j][1] == name:
+                while j < len(cbs) and name_of(cbs[j]) == name:
                     j += 1
-                run = sorted(cbs[i:j], key=lambda t: t[2][0] if t[2] and isinstance(t[2][0], int) else 0)
-                res.extend(run)
+                res.extend(sorted(cbs[i:j], key=key))
+                i = j
+            elif name == 'CbUnavailImg' or _is_chan_err(c):
+                j = i
+                while j < len(cbs) and (name_of(cbs[j]) == 'CbUnavailImg' or _is_chan_err(cbs[j])):
+                    j += 1
+                run = cbs[i:j]
+                res.extend([t for t in run if _is_chan_err(t)])
+                res.extend(sorted([t for t in run if not _is_chan_err(t)], key=key))
                 i = j
             else:
                 res.append(c)
@@ -124,8 +250,9 @@ def clean_scratch():
 class Sim:
     """Rough conductor simulation used to aim operations."""
 
-    def __init__(self, rng, c0, now0, tdrv, tis):
+    def __init__(self, rng, c0, now0, tdrv, tis, xhook=False):
         self.rng = rng
+        self.xhook = xhook      # find_exclusive_publication_for_verif is there: fx / dx / px may be emitted
         self.c0, self.now, self.tdrv, self.tis = c0, now0, tdrv, tis
         self.next = c0 + 1
         self.closed = False
@@ -164,13 +291,25 @@ class Sim:
         r = self.rng
         if k in 'pxs':
             ch, st = r.randrange(0, 10), r.choice([1, 7, 1001, -5, 2 ** 31 - 1, -2 ** 31])
-            self.emit('a' + k, ch, st)
+            if r.random() < 0.12:
+                # a long channel: the encoded command must fit the 512-byte command buffer (header 24 / 32 bytes) - exact fit,
+                # one less, one more, and a few others
+                top = 512 - (32 if k == 's' else 24)
+                ln = r.choice([top, top, top - 1, top + 1, top + 1, 41, 100, 300, top + 8, 600])
+                self.emit('a' + k, ch, st, ln)
+                if ln > top and self.active and not self.closed:
+                    return None     # IllegalArgument: nothing sent, no id drawn
+            else:
+                self.emit('a' + k, ch, st)
         elif k == 'c':
             ty = r.choice([0, 11, 1001, -3])
             kl = r.choice([0, 8, 16, 112, 112, 113, 200])
             ll = r.choice([0, 1, 10, 64, 380, 381]) if kl < 100 else r.choice([0, 10, 64])
+            if r.random() < 0.2:
+                kl = r.choice([0, 1, 4, 5, 109, 112])
+                ll = 512 - 28 - (kl + 3) // 4 * 4 + r.choice([0, 0, -1, 1, 1, 8])      # on the 512-byte boundary
             self.emit('ac', ty, kl, ll)
-            if kl > 112 or ll > 380:
+            if kl > 112 or ll > 380 or 28 + (kl + 3) // 4 * 4 + ll > 512:
                 if self.active and not self.closed:
                     return None
         else:
@@ -187,34 +326,41 @@ class Sim:
 
     def find(self, i, k=None):
         k = k or (self.regs[i]['kind'] if i in self.regs else self.rng.choice('pscd'))
-        if k == 'x':
-            return      # find_exclusive_publication is pub(crate): not reachable from the harness
+        if k == 'x' and not self.xhook:
+            return      # find_exclusive_publication is pub(crate): reachable only through the hook
         self.emit('f' + k, i)
         reg = self.regs.get(i)
         if self.closed or reg is None or reg['kind'] != k:
             return
-        if k == 'd':
+        if k == 'd' or reg.get('dead'):
             return
-        if reg['obj'] or (reg['state'] == 'ready' and k == 'p'):
+        if reg['obj'] or (reg['state'] == 'ready' and k in 'px'):
             reg['obj'] = True
             reg['held'] = True
         elif reg['state'] == 'err':
             del self.regs[i]
 
     def drop(self, i, k=None):
-        k = k or (self.regs[i]['kind'] if i in self.regs else self.rng.choice('psc'))
-        if k in 'xd':
+        k = k or (self.regs[i]['kind'] if i in self.regs else self.rng.choice('pscx' if self.xhook else 'psc'))
+        if k == 'd' or (k == 'x' and not self.xhook):
             return
         self.emit('d' + k, i)
         reg = self.regs.get(i)
         if reg and reg['kind'] == k and reg['held']:
-            if not self.closed:
+            if not self.closed and not reg.get('dead'):
                 self.next += 1
             del self.regs[i]        # (a publication / counter dropped while the ring is full stays registered with a dead handle)
 
+    def close_handle(self, i, k=None):
+        """the user calls the public close() of a publication / exclusive publication handle"""
+        k = k or (self.regs[i]['kind'] if i in self.regs else self.rng.choice('px' if self.xhook else 'p'))
+        if k not in 'px' or (k == 'x' and not self.xhook):
+            return
+        self.emit('c' + k, i)
+
     def peek(self, i, k=None):
-        k = k or (self.regs[i]['kind'] if i in self.regs else self.rng.choice('psc'))
-        if k in 'xd':
+        k = k or (self.regs[i]['kind'] if i in self.regs else self.rng.choice('pscx' if self.xhook else 'psc'))
+        if k == 'd' or (k == 'x' and not self.xhook):
             return
         self.emit('p' + k, i)
 
@@ -267,8 +413,17 @@ class Sim:
         if self.closed and n != 'ct':
             return
         want = {'pr': 'p', 'xr': 'x', 'sr': 's', 'cr': 'c', 'os': 'd'}.get(n)
+        if n == 'er' and a[1] == 4:
+            x = ((a[0] + 2 ** 31) % 2 ** 32) - 2 ** 31
+            for g in self.regs.values():
+                if g['kind'] in 'pxs' and g['obj'] and g.get('chstat') == x and not g.get('gone') and not g.get('dead') and (g['kind'] == 's' or g['held']):
+                    g['dead'] = True        # the conductor closed the handle and forgot the registration
+                    g['obj'] = False
+                    g['images'] = []
+            return
         if want and reg and reg['kind'] == want and reg['state'] == 'await' and not reg.get('gone'):
             reg['state'] = 'ready'
+            reg['chstat'] = {'pr': a[-1], 'xr': a[-1], 'sr': a[-1]}.get(n)
             if want in 'sc':
                 reg['obj'] = True
         elif n == 'er' and reg and not reg.get('gone'):
@@ -292,22 +447,41 @@ class Sim:
             self.next += 1
 
     # -- events aimed at registrations
+    def chstat(self):
+        # few distinct channel status indicator ids, so that a channel endpoint error often finds several resources on its channel
+        return self.rng.choice([6, 6, 6, 9, 9, 0, 63, self.rng.randrange(0, 64)])
+
     def ready_event(self, i, k=None):
         r = self.rng
         k = k or self.regs[i]['kind']
         cid = r.randrange(0, 64)
         if k == 'p':
-            return ['pr', i, r.choice([i, i, max(self.c0 + 1, i - 1)]), r.choice([7, -1, 2 ** 31 - 1]), r.randrange(-5, 100), cid, r.randrange(0, 64)]
+            return ['pr', i, r.choice([i, i, max(self.c0 + 1, i - 1)]), r.choice([7, -1, 2 ** 31 - 1]), r.randrange(-5, 100), cid, self.chstat()]
         if k == 'x':
-            return ['xr', i, r.choice([7, 12]), r.randrange(-5, 100), cid, r.randrange(0, 64)]
+            return ['xr', i, r.choice([7, 12]), r.randrange(-5, 100), cid, self.chstat()]
         if k == 's':
-            return ['sr', i, r.randrange(0, 64)]
+            return ['sr', i, self.chstat()]
         if k == 'c':
             return ['cr', i, cid]
         return ['os', i]
 
     def error_event(self, i):
         return ['er', i, self.rng.choice([0, 1, 2, 3, 5, 10, 11, 12, -1, 77])]
+
+    def chan_error_event(self):
+        """ErrorResponse with error code 4: the id is a channel status indicator id (compared as i32 by the conductor)."""
+        r = self.rng
+        live = [g['chstat'] for g in self.regs.values() if g.get('chstat') is not None and not g.get('gone') and not g.get('dead')]
+        q = r.random()
+        if live and q < 0.75:
+            x = r.choice(live)
+        elif q < 0.9:
+            x = self.chstat()
+        else:
+            x = r.choice([-1, 64, 2 ** 31 - 1, self.next, self.c0 + 1])     # also: the id of a registration (not a channel id)
+        if r.random() < 0.15:
+            x += r.choice([2 ** 32, -2 ** 32, 2 ** 40])     # the same channel id as i32
+        return ['er', x, 4]
 
 
 def gen_history(rng, tier, flavour):
@@ -317,7 +491,7 @@ def gen_history(rng, tier, flavour):
     now0 = rng.choice([1000000, 1000000, 1700000000000])
     tdrv = rng.choice([10000, 10000, 2000])
     tis = rng.choice([5000, 20000, 1000])
-    s = Sim(rng, c0, now0, tdrv, tis)
+    s = Sim(rng, c0, now0, tdrv, tis, xhook=has_find_excl_hook())
     keep_alive = flavour == 'protocol' or rng.random() < 0.75
     if rng.random() < 0.95:
         s.heartbeat()
@@ -326,6 +500,7 @@ def gen_history(rng, tier, flavour):
         s.hbenv = 1
     n = rng.choice([6, 12, 25, 40, 58])
     kinds = 'ppsscxd' if rng.random() < 0.7 else rng.choice(['p', 's', 'c', 'd', 'x', 'ps'])
+    chan = rng.random() < 0.45      # the driver reports channel endpoint errors (error code 4) in this history
     while len(s.ops) < n:
         r = rng.random()
         pending = s.ids(state=['await'])
@@ -337,7 +512,9 @@ def gen_history(rng, tier, flavour):
         elif r < 0.34:
             # an answer: matching, duplicate, foreign kind, unknown id
             q = rng.random()
-            if pending and q < 0.55:
+            if chan and rng.random() < 0.3:
+                ev = s.chan_error_event()
+            elif pending and q < 0.55:
                 i = rng.choice(pending)
                 ev = s.ready_event(i) if rng.random() < 0.75 else s.error_event(i)
             elif live and q < 0.75:
@@ -355,7 +532,7 @@ def gen_history(rng, tier, flavour):
                 s.find(rng.choice(live))
             elif s.regs and rng.random() < 0.5:
                 i = rng.choice(list(s.regs))
-                s.find(i, rng.choice('pscd'))       # lookup in another kind's map
+                s.find(i, rng.choice('pscdx' if s.xhook else 'pscd'))       # lookup in another kind's map
             else:
                 s.find(s.unknown_id())
         elif r < 0.63:
@@ -365,7 +542,10 @@ def gen_history(rng, tier, flavour):
             elif live:
                 s.drop(rng.choice(live))
         elif r < 0.68:
-            if live:
+            if live and rng.random() < 0.3:
+                held = s.ids(kind='px', held=True)
+                s.close_handle(rng.choice(held) if held and rng.random() < 0.85 else rng.choice(live))
+            elif live:
                 s.peek(rng.choice(live))
         elif r < 0.76:
             d = rng.choice([1, 100, 499, 501, 1001, tdrv - 1, tdrv, tdrv + 1, tdrv // 2])
@@ -377,7 +557,7 @@ def gen_history(rng, tier, flavour):
         elif r < 0.82:
             s.work('w')
         elif r < 0.90:
-            subs = [i for i in s.ids(kind='s') if s.regs[i]['obj'] and not s.regs[i].get('gone')]
+            subs = [i for i in s.ids(kind='s') if (s.regs[i]['obj'] or (s.regs[i].get('dead') and rng.random() < 0.3)) and not s.regs[i].get('gone')]
             q = rng.random()
             if subs and q < 0.5:
                 i = rng.choice(subs)
@@ -442,9 +622,9 @@ def gen_history(rng, tier, flavour):
             s.close()
     for i in list(s.regs)[:8]:
         k = s.regs[i]['kind']
-        if k != 'x':
+        if k != 'x' or s.xhook:
             s.emit('f' + k, i)
-        if k in 'psc':
+        if k in 'psc' or (k == 'x' and s.xhook):
             s.emit('p' + k, i)
     if rng.random() < 0.5:
         s.add(rng.choice('psc'))
@@ -504,6 +684,45 @@ def scripted():
     h('heartbeat-slot-reused-after-lapped-timeout', 'hb 1000000; hc 1; tk 501; w; wl; hc 3; tk 501; w; ap 1 1; tk 501; w')
     h('heartbeat-slot-other-client-never-bound', 'hb 1000000; hc 3; tk 501; w; tk 501; w; hc 1; tk 501; w; hc 3; tk 501; w')
     h('client-timeout-foreign', 'hb 1000000; ap 1 1; we ct 77; fp 1; we ct 0; fp 1; we ct 0; w')
+    # commands on the 512-byte boundary of the command buffer: exact fit is legal, one more is IllegalArgument and sends nothing
+    h('command-exact-fit', 'hb 1000000; ap 1 1 488; ap 1 1 489; ap 1 1 487; as 1 1 480; as 1 1 481; as 1 1 479; ax 1 1 488; ax 1 1 489; ap 2 2 41; ap 2 2 600;'
+      'ac 1 112 372; ac 1 112 373; ac 1 109 372; ac 1 109 373; ac 1 0 381; ac 1 0 380; ac 1 4 380; ac 1 5 380; fp 1; fs 3; we pr 1 1 1 5 3 4; fp 1; dp 1; ap 1 1')
+    h('command-exact-fit-ring-full-closed', 'hb 1000000; rf 1; ap 1 1 488; ap 1 1 489; rf 0; ap 1 1 488; cl; ap 1 1 489; ap 1 1 488')
+    # the user's own close() on a publication handle: the conductor is not involved, the drop still sends the one Remove
+    h('publication-close-then-drop', 'hb 1000000; ap 1 1; we pr 1 1 1 5 3 4; cp 1; fp 1; cp 1; pp 1; fp 1; cp 1; pp 1; dp 1; fp 1; cp 1; ap 2 2; we pr 3 3 2 5 3 4; fp 3; dp 3')
+    h('publication-close-then-client-close', 'hb 1000000; ap 1 1; ap 2 2; we pr 1 1 1 5 3 4; we pr 2 2 2 5 3 4; fp 1; fp 2; cp 1; cl; pp 1; pp 2; cp 2; dp 1; dp 2')
+    h('publication-close-then-chan-error', 'hb 1000000; ap 1 1; we pr 1 1 1 5 3 6; fp 1; cp 1; we er 6 4; pp 1; fp 1; dp 1')
+    h('publication-close-ring-full-drop', 'hb 1000000; ap 1 1; we pr 1 1 1 5 3 6; fp 1; cp 1; rf 1; dp 1; rf 0; fp 1; cp 1')
+    # channel endpoint errors (ErrorResponse with error code 4; the id is a channel status indicator id, compared as i32)
+    h('chan-error-sub-held-with-images', 'hb 1000000; as 1 1; we sr 1 6; fs 1; we ai 50 1 2 1; we ai 51 1 3 1; we er 6 4; ps 1; fs 1; we ai 52 1 2 1; we ui 50 1; ds 1; fs 1; cl')
+    h('chan-error-sub-cached', 'hb 1000000; as 1 1; we sr 1 6; we ai 50 1 2 1; we er 6 4; fs 1; we ai 51 1 2 1; cl')
+    h('chan-error-sub-zero-images-then-announcement', 'hb 1000000; as 1 1; we sr 1 6; fs 1; we er 6 4; ps 1; fs 1; we ai 50 1 2 1; ps 1; we ui 50 1; we er 6 4; ds 1; cl')
+    h('chan-error-sub-cached-zero-images', 'hb 1000000; as 1 1; we sr 1 6; we er 6 4; fs 1; we ai 50 1 2 1; fs 1; as 1 1; we sr 2 6; fs 2; we ai 51 1 2 2; ps 2')
+    h('chan-error-pub-held-and-never-looked-up', 'hb 1000000; ap 1 1; ap 2 2; we pr 1 1 1 5 3 6; we pr 2 2 2 5 3 6; fp 1; we er 6 4; pp 1; fp 1; fp 2; pp 2; dp 1; dp 2; we er 6 4; fp 2; cl')
+    h('chan-error-several-resources', 'hb 1000000; as 1 1; as 2 2; ap 3 3; ap 4 4; ac 1 2 3; ad 0 3 5; we sr 1 6; we sr 2 6; we pr 3 3 3 5 3 6; we pr 4 4 4 5 3 7; we cr 5 6; we os 6;'
+      'fs 2; fp 3; fp 4; fc 5; we ai 50 1 2 1; we ai 51 1 2 2; we ai 52 1 2 2; we er 6 4; ps 2; pp 3; pp 4; pc 5; fs 1; fs 2; fp 3; fp 4; fc 5; fd 6; we ai 53 1 2 2; we er 6 4; we er 7 4; pp 4; fp 4; cl')
+    h('chan-error-id-truncated-to-i32', 'hb 1000000; as 1 1; ap 2 2; we sr 1 6; we pr 2 2 2 5 3 6; fs 1; fp 2; we er 4294967302 4; fs 1; fp 2; ps 1; pp 2')
+    h('chan-error-negative-and-unknown-ids', 'hb 1000000; as 1 1; we sr 1 6; fs 1; we er -6 4; we er 7 4; we er 1 4; we er 0 4; fs 1; ps 1; as 2 2; we sr 2 -1; fs 2; we er -1 4; fs 2; we er 4294967295 4; fs 1')
+    h('chan-error-awaiting-and-errored-untouched', 'hb 1000000; as 1 1; ap 2 2; as 3 3; we er 3 2; we er 6 4; we er 1 4; fs 1; fp 2; fs 3; we sr 1 6; we pr 2 2 2 5 3 6; fs 1; fp 2')
+    h('chan-error-after-close', 'hb 1000000; as 1 1; we sr 1 6; fs 1; cl; we er 6 4; ps 1; fs 1; ds 1')
+    h('chan-error-then-stall-closes', 'hb 1000000; as 1 1; as 2 2; we sr 1 6; we sr 2 7; fs 1; fs 2; we ai 50 1 2 1; we ai 51 1 2 2; tk 5001; hb 1005001; we er 6 4; ps 1; ps 2; fs 1')
+    h('chan-error-dropped-handles', 'hb 1000000; as 1 1; ap 2 2; we sr 1 6; we pr 2 2 2 5 3 6; fs 1; fp 2; ds 1; dp 2; we er 6 4; fs 1; fp 2')
+    h('chan-error-ring-full', 'hb 1000000; as 1 1; ap 2 2; we sr 1 6; we pr 2 2 2 5 3 6; fs 1; fp 2; rf 1; dp 2; we er 6 4; fp 2; ds 1; rf 0; fs 1; fp 2; ap 1 1')
+    h('chan-error-driver-inactive-drop', 'hb 1000000; ap 1 1; we pr 1 1 1 5 3 6; fp 1; we er 6 4; tk 10001; w; dp 1; fp 1')
+    h('error-code-4-vs-others-same-id', 'hb 1000000; as 6 6; we sr 1 1; fs 1; we er 1 3; fs 1; we er 1 4; fs 1; ps 1; we er 1 5; fs 1')
+    if has_find_excl_hook():
+        h('chan-error-xpub', 'hb 1000000; ax 1 1; ax 2 2; ax 3 3; we xr 1 1 5 3 6; we xr 2 2 5 3 6; we xr 3 3 5 3 7; fx 1; fx 3; we er 6 4; px 1; fx 1; fx 2; fx 3; px 3; dx 1; we er 6 4; fx 2; cl')
+    if has_find_excl_hook():
+        # exclusive publications looked up / peeked at / dropped through the hook find_exclusive_publication_for_verif
+        h('xpub-timeout-vs-notready', 'hb 1000000; ax 1 1; fx 1; tk 10000; fx 1; tk 1; fx 1; we xr 1 1 5 3 4; fx 1')
+        h('xpub-lifecycle', 'hb 1000000; ax 4 9; fx 1; we xr 1 9 5 3 4; fx 1; fx 1; px 1; we xr 1 9 6 7 8; fx 1; px 1; dx 1; fx 1; dx 1')
+        h('xpub-error-once', 'hb 1000000; ax 4 9; we er 1 3; fx 1; fx 1; ax 4 9; we er 3 5; we xr 3 9 5 3 4; fx 3; fx 3')
+        h('xpub-wrong-map', 'hb 1000000; ap 1 1; ax 1 1; we pr 1 1 1 5 3 4; we xr 2 1 6 7 8; fx 1; fp 2; fx 2; fp 1; px 2; pp 1; we pr 2 2 1 1 1 1; we xr 1 1 1 1 1; px 2; pp 1')
+        h('xpub-close', 'hb 1000000; ax 4 9; ax 5 9; we xr 1 9 5 3 4; we xr 2 9 6 7 8; fx 1; cl; px 1; fx 1; fx 2; dx 1; dx 2; ax 1 1')
+        h('xpub-client-timeout', 'hb 1000000; ax 4 9; we xr 1 9 5 3 4; fx 1; we ct 0; px 1; fx 1; dx 1; w')
+        h('xpub-ring-full-drop', 'hb 1000000; ax 4 9; we xr 1 9 5 3 4; fx 1; rf 1; dx 1; fx 1; rf 0; fx 1; cl')
+        h('xpub-close-then-drop', 'hb 1000000; ax 1 1; we xr 1 1 5 3 4; cx 1; fx 1; cx 1; px 1; fx 1; dx 1; fx 1; cx 1; ax 2 2 488; we xr 3 2 5 3 4; fx 3; cx 3; cl; px 3; dx 3')
+        h('xpub-same-while-held', 'hb 1000000; ax 4 9; ax 4 9; we xr 2 9 5 3 4; we xr 1 9 5 3 4; fx 2; fx 1; fx 2; fx 1; px 1; px 2; dx 2; fx 1; fx 2')
     return [conv(c) for c in H]
 
 
